@@ -329,7 +329,8 @@ def prepare_lean(ctx: Ctx):
     infrastructure failure of /verif (it cannot be caused by an edit of /repo)."""
     ok, log = lake_build()
     if not ok:
-        raise Infra("lake build failed:\n" + log[-4000:])
+        errs = [l for l in log.splitlines() if "error" in l]
+        raise Infra("lake build failed:\n" + "\n".join(errs[:20]))
     hits = forbidden_tokens()
     if hits:
         raise Infra("forbidden tokens in the Lean development:\n" + "\n".join(hits))
